@@ -229,5 +229,31 @@ PROPS['C20'] = {
                   'base histories) and the Lean audit applied to the real directory.',
 }
 
+PROPS['C02'] = {
+    'module': 'Yabgp.Props.C02',
+    'theorems': ['Yabgp.C02_never_stuck', 'Yabgp.heal_step', 'Yabgp.heal_first', 'Yabgp.C02_idle_hold_expiry_reconnects',
+                 'Yabgp.C02_retry_expiry_reconnects', 'Yabgp.C02_owed_close_arms_idle_hold',
+                 'Yabgp.C02_heals_from_idle_hold', 'Yabgp.heal_to_openSent', 'Yabgp.heal_from_openSent',
+                 'Yabgp.C02_stays_established', 'Yabgp.Core.heal_frameOutcome', 'Yabgp.Core.heal_stepOutcome',
+                 'Yabgp.core_step_inv', 'Yabgp.C05_open_fields', 'Yabgp.C01_open_accepted'],
+    'genagree': SESSION_GEN,
+    'suites': ['heal', 'session'],
+    'cannot': SESSION_CANNOT + '; PARTIAL on the liveness half: "never stuck" (a session on a live connection, or a reconnection '
+              'timer running, or a close still to be reported) is proved for EVERY event sequence incl. the multi-connection '
+              'histories; re-establishment is proved from the resting situation (Idle, idle-hold timer due) for every value of '
+              'everything else in the state, and "stays Established under KEEPALIVE traffic" for every such run; the bounded '
+              'liveness from EVERY reachable state under every fair schedule is decided by the heal suite on the implementation '
+              '(lockstep with the model), not by a theorem; the capability part of "same parameters" is the known finding '
+              'C02-capability-leak',
+    'level_text': 'Lean 4: a control-skeleton abstraction of the session model (core : Sess -> Core) with a refinement lemma for '
+                  'every action (core (f s) = fC (core s), frame handling as a finite outcome set), and on it the invariant Heal '
+                  'proved inductive over ALL events => C02_never_stuck for every history after the first start; each pending item '
+                  'is shown to lead on; from Idle with the idle-hold timer due and ANY leftover state a cooperative peer reaches '
+                  'Established in four events with hold time min(configured, proposed) (C02_heals_from_idle_hold), and an '
+                  'Established session stays up under KEEPALIVE traffic. Tie: lockstep differential runs of model and real '
+                  'BGPPeering/FSM/BGP over adversarial prefixes (BFS + random) followed by a cooperative continuation; oracle on the '
+                  'implementation: never stuck, Established within idle_hold + slack, still up 3 hold times later, same OPEN.',
+}
+
 # properties not claimed yet, with the reason that goes into MANIFEST.not_applicable
 NOT_YET = {}
